@@ -788,11 +788,30 @@ func genValueRecord(t *rapid.T) *gtab.GposValueRecord {
 }
 
 func genGsubLookup(t *rapid.T, n int, subsetOnly bool) *gtab.LookupTable {
-	kinds := []int{1, 2, 4}
+	kinds := []int{1, 2, 4, 12, 3}
 	if subsetOnly {
 		kinds = []int{1, 4}
 	}
 	switch rapid.SampledFrom(kinds).Draw(t, "gsubType") {
+	case 12:
+		cov, keys := genCovTable(t, n, 5)
+		subst := make([]glyph.ID, len(keys))
+		for i := range subst {
+			subst[i] = glyph.ID(gidGen(n).Draw(t, "substGid"))
+		}
+		return &gtab.LookupTable{Meta: &gtab.LookupMetaInfo{LookupType: 1},
+			Subtables: []gtab.Subtable{&gtab.Gsub1_2{Cov: cov, SubstituteGlyphIDs: subst}}}
+	case 3:
+		cov, keys := genCovTable(t, n, 4)
+		alts := make([][]glyph.ID, len(keys))
+		for i := range alts {
+			k := rapid.IntRange(1, 3).Draw(t, "altN")
+			for j := 0; j < k; j++ {
+				alts[i] = append(alts[i], glyph.ID(gidGen(n).Draw(t, "altGid")))
+			}
+		}
+		return &gtab.LookupTable{Meta: &gtab.LookupMetaInfo{LookupType: 3},
+			Subtables: []gtab.Subtable{&gtab.Gsub3_1{Cov: cov, Alternates: alts}}}
 	case 1:
 		cov, keys := genCovTable(t, n, 5)
 		_ = cov
